@@ -343,7 +343,17 @@ int main(int argc, char* const* argv)
     }
 
     if (pipe_in || pipe_out) {
-        if (!ContinueScript(*env)) {
+        bool script_ok;
+        try {
+            script_ok = ContinueScript(*env);
+        } catch (const std::exception& ex) {
+            // script-level failures raised as C++ exceptions (script number overflow, non-minimal
+            // numbers, pops from an empty stack): a failed script, not a crash
+            fprintf(stderr, "error: exception thrown: %s\n", ex.what());
+            print_dualstack();
+            return 1;
+        }
+        if (!script_ok) {
             fprintf(stderr, "error: %s\n", ScriptErrorString(*env->serror).c_str());
             print_dualstack();
             return 1;
